@@ -11,7 +11,7 @@ package main
 //	fee     := denom=int
 //	paths   := `-` | hex(,hex)*   (hex = lowercase hex of the entry, `e` = empty entry; at most 10 entries of at most 64 bytes)
 //	time    : 0 <= t < 2^40       fund: valid positive amounts <= 2^50
-//	grow<n> : 200 <= n <= 5000    tx: 1..6 msgs
+//	grow<n> : 200 <= n <= 5000    tx: 0..6 msgs
 
 import (
 	"strconv"
@@ -316,7 +316,7 @@ func parseOp(t []string) (*txOp, bool) {
 		}
 		return &txOp{kind: "fund", acct: a, coins: cs}, true
 	case "tx":
-		if len(t) < 4 || len(t) > 9 {
+		if len(t) < 3 || len(t) > 9 {
 			return nil, false
 		}
 		op := &txOp{kind: "tx", auth: map[int]int{}}
